@@ -136,8 +136,10 @@ namespace xsimd
                                                                               \
         auto resx3 = _mm512_add_ps(tmp5, tmp6);                               \
                                                                               \
-        halfx##I = _mm256_hadd_ps(_mm512_extractf32x8_ps(resx3, 0),           \
-                                  _mm512_extractf32x8_ps(resx3, 1));          \
+        /* hadd_ps works per 128-bit lane: pair quarter 0 with 2 and 1 with 3 */ \
+        auto resx4 = _mm512_shuffle_f32x4(resx3, resx3, _MM_SHUFFLE(3, 1, 2, 0)); \
+        halfx##I = _mm256_hadd_ps(_mm512_extractf32x8_ps(resx4, 0),           \
+                                  _mm512_extractf32x8_ps(resx4, 1));          \
     }
 
             XSIMD_AVX512_HADDP_STEP2(0, res0, res1, res2, res3);
